@@ -106,6 +106,8 @@ fn scenarios() -> Vec<Scenario> {
         mk("static-function", "PRINT C%; C%; C%\nEND\nFUNCTION C% STATIC\nK% = K% + 1\nC% = K%\nEND FUNCTION\n", &[" 1  2  3 "]),
         mk("two-statics-nested", "P\nP\nEND\nSUB P\nS1\nS2\nEND SUB\nSUB S1 STATIC\nA% = A% + 1\nPRINT \"a\"; A%\nS2\nEND SUB\nSUB S2 STATIC\nB% = B% + 10\nPRINT \"b\"; B%\nEND SUB\n", &["a 1 ", "b 10 ", "b 20 ", "a 2 ", "b 30 ", "b 40 "]),
         mk("shared-is-one-object", "DIM SHARED G%\nG% = 1\nP\nPRINT G%\nEND\nSUB P\nG% = G% + 5\nQ\nEND SUB\nSUB Q\nG% = G% * 2\nEND SUB\n", &[" 12 "]),
+        mk("shared-next-to-local-of-other-suffix", "DIM SHARED Total%\nTotal% = 10\nAddOne\nAddOne\nPRINT \"main\"; Total%\nReport\nEND\nSUB AddOne\nTotal$ = \"adding\"\nTotal% = Total% + 1\nPRINT Total$; Total%\nEND SUB\nSUB Report\nPRINT \"report\"; Total%\nEND SUB\n", &["adding 11 ", "adding 12 ", "main 12 ", "report 12 "]),
+        mk("shared-next-to-parameter-of-other-suffix", "DIM SHARED G%\nG% = 1\nP \"x\"\nPRINT G%\nEND\nSUB P (G$)\nG% = G% + 5\nPRINT G$; G%\nEND SUB\n", &["x 6 ", " 6 "]),
         mk("const-visible-everywhere", "CONST K = 7\nP\nEND\nSUB P\nPRINT K\nPRINT F%(1)\nEND SUB\nFUNCTION F% (N%)\nF% = K + N%\nEND FUNCTION\n", &[" 7 ", " 8 "]),
         mk("call-nested-in-arguments", "PRINT F%(F%(1) + F%(2))\nEND\nFUNCTION F% (N%)\nF% = N% + 1\nEND FUNCTION\n", &[" 6 "]),
         mk("byref-through-two-levels", "A% = 1\nP A%\nPRINT A%\nEND\nSUB P (X%)\nQ X%\nEND SUB\nSUB Q (Y%)\nY% = Y% + 41\nEND SUB\n", &[" 42 "]),
